@@ -120,6 +120,88 @@ def ib_cli_stage(ctx, rng, nruns=6):
         shutil.rmtree(T, ignore_errors=True)
 
 
+SXG_URIS = ['https://example.com/page%d.html', 'https://example.com/caf\u00e9-%d.html', 'https://example.com/hello world %d.html', 'HTTPS://example.com/index%d.html', 'https://example.com/a|b%d',
+            'https://example.com/p%d#', 'https://EXAMPLE.com/p%d', 'https://example.com/%%7Euser/%d', 'https://example.com/x%d?', 'https://example.com:443/q%d']
+
+
+def sxg_cli_core(ctx, rng, thorough, T, B, keys, wfile):
+    """gen-certurl -> gen-signedexchange -> dump-signedexchange -verify over the real binaries: every accepted PEM form, versions,
+    record sizes, output to a fresh file / over an existing longer file / to stdout, input through -i / stdin, defaulted and explicit
+    content type, URL spellings that a parse / re-serialise step would change. Also used by the C08 and C02 checks."""
+    ocsp = wfile('sxgo.der', b'dummy-ocsp')
+    n = 6 if not thorough else 40
+    for i in range(n):
+        ver = rng.choice(['1b1', '1b2', '1b3'])
+        kname = ['ec-sec1-params-p256', 'ec-sec1-p256', 'ec-pkcs8-p256', 'ec-pkcs8-p384'][i % 4]      # every accepted PEM form, in turn
+        kk = keys[kname]
+        certpem, keypem = wfile(f'sx{i}c.pem', kk['cert']), wfile(f'sx{i}k.pem', kk['key'])
+        rc, chainbytes, _ = sh([B('gen-certurl'), '-pem', certpem, '-ocsp', ocsp])
+        chain = wfile(f'sx{i}chain.cbor', chainbytes)
+        content = wfile(f'content{i}.html', rbytes(rng, [5000, 100, 1, 0, 40000][i % 5]))
+        outp = os.path.join(T, f'out{i}.sxg')
+        rs = [16384, 16, 1, 4096][i % 4]
+        uri = (SXG_URIS[i % len(SXG_URIS)] if i % 2 == 1 else SXG_URIS[0]) % i
+        cmd = [B('gen-signedexchange'), '-version', ver, '-uri', uri, '-content', content, '-certificate', certpem, '-privateKey', keypem,
+               '-certUrl', 'https://example.com/cert.cbor', '-validityUrl', 'https://example.com/validity', '-miRecordSize', str(rs), '-expire', rng.choice(['1h', '168h', '1m']), '-o', outp,
+               '-responseHeader', 'X-Extra: v1', '-responseHeader', 'X-Extra: v2']
+        # the output channel is an input dimension too: '-o -' sends the exchange to stdout (nothing else may be printed there), with
+        # and without an explicit content-type response header (the default one is filled in by the tool); a file output lands on a path
+        # that already holds a longer file (a previous, bigger version of the page)
+        via_stdout = i % 3 != 0
+        if i % 2 == 0: cmd += ['-responseHeader', 'Content-Type: text/html; charset=utf-8']
+        if via_stdout: cmd[cmd.index('-o') + 1] = '-'
+        else:
+            stale(outp, 100000)
+            hd, sm = os.path.join(T, f'hd{i}.cbor'), os.path.join(T, f'sm{i}.bin')
+            stale(hd, 50000); stale(sm, 50000)
+            cmd += ['-dumpHeadersCbor', hd, '-dumpSignatureMessage', sm]
+        rc, so, err = sh(cmd)
+        if via_stdout and rc == 0:
+            open(outp, 'wb').write(so)
+        rec(ctx, f'c20.gen-signedexchange {ver} key={kname} rs={rs} stdout={via_stdout} ct={i % 2 == 0} uri={uri}', 'exit %d %s' % (rc, err.decode()[-160:].strip() if rc else ''), 'exit 0 ')
+        if rc == 0:
+            if i % 2 == 1:      # the reader fed through stdin
+                rc2, out2, err2 = sh([B('dump-signedexchange'), '-verify', '-cert', chain, '-payload=false'], inp=open(outp, 'rb').read())
+            else:
+                rc2, out2, err2 = sh([B('dump-signedexchange'), '-i', outp, '-verify', '-cert', chain, '-payload=false'])
+            ok = b'The exchange has a valid signature' in out2 or b'valid' in out2.lower()
+            rec(ctx, f'c20.dump-signedexchange-verify {ver} i={i}', f'exit {rc2} valid={ok}', 'exit 0 valid=True')
+            if not via_stdout:
+                # the two dump files are exactly the header block / the signed message of the file just written: compare with the library
+                # reading that file (header block = bytes of the file; message ends with the header block's hash resp. the block itself)
+                data = open(outp, 'rb').read()
+                hdb, smb = open(hd, 'rb').read(), open(sm, 'rb').read()
+                rec(ctx, f'c20.dumpHeadersCbor-is-a-slice-of-the-file i={i}', str(len(hdb) > 0 and hdb in data), 'True')
+                rec(ctx, f'c20.dumpSignatureMessage-has-no-stale-tail i={i}', str(len(smb) < 50000 and len(hdb) < 50000), 'True')
+    return content, certpem, keypem
+
+
+def sxg_cli_stage(ctx, rng, thorough=False):
+    """stand-alone form for other checks (C08: file layout as emitted by the tool; C02: what the tool writes reads back and verifies)"""
+    T = tempfile.mkdtemp(prefix='verif-sxgcli-', dir=os.environ.get('TMPDIR', '/tmp'))
+    try:
+        bindir = os.path.join(T, 'bin'); os.makedirs(bindir)
+        rc, out, err = sh(['go', 'build', '-o', bindir + '/', './go/signedexchange/cmd/...'], cwd=REPO, env=GOENV)
+        if rc != 0:
+            ctx.infra.append('building the signedexchange tools failed: ' + err.decode()[-300:]); return
+        kinds = ['ec-sec1-p256', 'ec-pkcs8-p256', 'ec-pkcs8-p384', 'ec-sec1-params-p256']
+        res = ctx.go([f'setup.pem {k} {hexs(b"example.com,www.example.com")} {hexs(b"s3cret")}' for k in kinds])
+        keys = {}
+        for k, r in zip(kinds, res):
+            if r and r.startswith('ok '):
+                _, kp, cp, pp, raw = r.split(' ')
+                keys[k] = dict(key=unhex(kp), cert=unhex(cp), pub=unhex(pp), raw=raw)
+        if len(keys) < len(kinds):
+            ctx.infra.append('setup.pem failed'); return
+        def wfile(name, data):
+            p = os.path.join(T, name)
+            with open(p, 'wb') as f: f.write(data)
+            return p
+        sxg_cli_core(ctx, rng, thorough, T, lambda n: os.path.join(bindir, n), keys, wfile)
+    finally:
+        shutil.rmtree(T, ignore_errors=True)
+
+
 def run(ctx):
     rng, thorough = ctx.rng, ctx.tier == 'thorough'
     scratch = tempfile.mkdtemp(prefix='verif-c20-', dir=os.environ.get('TMPDIR', '/tmp'))
@@ -328,42 +410,7 @@ def _run(ctx, rng, thorough, T):
             rec(ctx, 'c20.two-signers dump-bundle-verifies', f'exit {rcd} section-error={outd.count(b"Signature verification error")} signed={outd.count(b"[Signed with certificate #")} errors={outd.count(b"verification error]")}',
                 'exit 0 section-error=0 signed=4 errors=0')
     # ---------------------------------------------------------------- E. gen-signedexchange -> dump-signedexchange -verify
-    kk = keys['ec-sec1-p256']
-    certpem, keypem = wfile('sxgc.pem', kk['cert']), wfile('sxgk.pem', kk['key'])
-    ocsp = wfile('sxgo.der', b'dummy-ocsp')
-    rc, chainbytes, _ = sh([B('gen-certurl'), '-pem', certpem, '-ocsp', ocsp])
-    chain = wfile('sxgchain.cbor', chainbytes)
-    n = 6 if not thorough else 40
-    for i in range(n):
-        ver = rng.choice(['1b1', '1b2', '1b3'])
-        kname = ['ec-sec1-params-p256', 'ec-sec1-p256', 'ec-pkcs8-p256', 'ec-pkcs8-p384'][i % 4]      # every accepted PEM form, in turn
-        kk = keys[kname]
-        certpem, keypem = wfile(f'sx{i}c.pem', kk['cert']), wfile(f'sx{i}k.pem', kk['key'])
-        rc, chainbytes, _ = sh([B('gen-certurl'), '-pem', certpem, '-ocsp', ocsp])
-        chain = wfile(f'sx{i}chain.cbor', chainbytes)
-        content = wfile(f'content{i}.html', rbytes(rng, [5000, 100, 1, 0, 40000][i % 5]))
-        outp = os.path.join(T, f'out{i}.sxg')
-        rs = [16384, 16, 1, 4096][i % 4]
-        if i % 2 == 1: stale(outp, 100000)
-        cmd = [B('gen-signedexchange'), '-version', ver, '-uri', 'https://example.com/page%d.html' % i, '-content', content, '-certificate', certpem, '-privateKey', keypem,
-               '-certUrl', 'https://example.com/cert.cbor', '-validityUrl', 'https://example.com/validity', '-miRecordSize', str(rs), '-expire', rng.choice(['1h', '168h', '1m']), '-o', outp,
-               '-responseHeader', 'X-Extra: v1', '-responseHeader', 'X-Extra: v2']
-        # the output channel is an input dimension too: '-o -' sends the exchange to stdout (nothing else may be printed there), with
-        # and without an explicit content-type response header (the default one is filled in by the tool)
-        via_stdout = i % 3 != 0
-        if i % 2 == 0: cmd += ['-responseHeader', 'Content-Type: text/html; charset=utf-8']
-        if via_stdout: cmd[cmd.index('-o') + 1] = '-'
-        rc, so, err = sh(cmd)
-        if via_stdout and rc == 0:
-            open(outp, 'wb').write(so)
-        rec(ctx, f'c20.gen-signedexchange {ver} key={kname} rs={rs} stdout={via_stdout} ct={i % 2 == 0}', 'exit %d %s' % (rc, err.decode()[-160:].strip() if rc else ''), 'exit 0 ')
-        if rc == 0:
-            if i % 2 == 1:      # the reader fed through stdin
-                rc2, out2, err2 = sh([B('dump-signedexchange'), '-verify', '-cert', chain, '-payload=false'], inp=open(outp, 'rb').read())
-            else:
-                rc2, out2, err2 = sh([B('dump-signedexchange'), '-i', outp, '-verify', '-cert', chain, '-payload=false'])
-            ok = b'The exchange has a valid signature' in out2 or b'valid' in out2.lower()
-            rec(ctx, f'c20.dump-signedexchange-verify {ver} i={i}', f'exit {rc2} valid={ok}', 'exit 0 valid=True')
+    content, certpem, keypem = sxg_cli_core(ctx, rng, thorough, T, B, keys, wfile)
     # a b3 response that is not cacheable must be refused by gen-signedexchange (self-verification), not emitted
     outp = os.path.join(T, 'noncache.sxg')
     rc, _, err = sh([B('gen-signedexchange'), '-version', '1b3', '-status', '201', '-uri', 'https://example.com/x', '-content', content, '-certificate', certpem, '-privateKey', keypem,
